@@ -70,6 +70,7 @@ import (
 	"github.com/restic/restic/internal/data"
 	"github.com/restic/restic/internal/repository"
 	"github.com/restic/restic/internal/restic"
+	"github.com/restic/restic/internal/verifshim/detrand"
 	"github.com/restic/restic/internal/verifshim/gatebe"
 	"github.com/restic/restic/internal/verifshim/oracle"
 	"github.com/restic/restic/internal/verifshim/vh"
@@ -336,6 +337,9 @@ const verifC42Unref = "unreferenced"
 // data blob that nothing references) and returns the store state.
 func verifC42Fixture(t *testing.T, m *verifC42Model) gatebe.State {
 	ctx := context.Background()
+	// deterministic keys and nonces: the snapshot file names (= the order in which the checker lists
+	// the roots) must be the same in every shard and every run
+	defer detrand.Install(4242)()
 	repo, store, err := oracle.NewRepo(ctx, 2, repository.Options{})
 	if err != nil {
 		t.Fatal(err)
